@@ -103,6 +103,21 @@ struct Sys {
         if (memcmp(code.text_section()->data() + start, dst.data() + 32, sz) != 0) { why = "embed_const_pool bytes differ from fill()"; return false; }
       }
     }
+    // BaseBuilder::embed_const_pool (the Builder counterpart): after serialisation the same bytes at the same aligned offset
+    if (sz) {
+      CodeHolder code; Environment env(Arch::kX64); code.init(env);
+      x86::Builder b(&code);
+      b.db(0x90);
+      Label L = b.new_label();
+      Error err = b.embed_const_pool(L, pool);
+      if (err == Error::kOk) { b.db(0xC3); err = b.finalize(); }
+      if (err != Error::kOk) { why = "Builder::embed_const_pool / finalize failed"; return false; }
+      size_t al = pool.alignment() ? pool.alignment() : 1;
+      size_t start = (1 + al - 1) / al * al;
+      if (!code.is_label_bound(L) || code.label_offset(L) != start) { why = "Builder::embed_const_pool: label not at the aligned start"; return false; }
+      if (code.text_section()->buffer_size() != start + sz + 1) { char m[160]; snprintf(m, sizeof m, "Builder::embed_const_pool emitted %zu bytes for a pool of %zu bytes", code.text_section()->buffer_size() - 1 - start, sz); why = m; return false; }
+      if (memcmp(code.text_section()->data() + start, dst.data() + 32, sz) != 0 || code.text_section()->data()[start + sz] != 0xC3) { why = "Builder::embed_const_pool bytes differ from fill()"; return false; }
+    }
     // the same with a code buffer that has to grow (and move) while the pool is embedded
     if (sz) {
       CodeHolder code; Environment env(Arch::kX64); code.init(env);
